@@ -3,20 +3,32 @@
 // metadata writes as a trace, and can kill the process (os.Exit, nothing flushed, no deferred
 // function run) immediately before or immediately after the N-th write of a class.
 //
+// Below the store interface: when the DVID tree carries the transaction hook of storage/badger
+// (repo_patches/C04-hook.diff: the yield points "storage.badger.txn.begin" / ".done" around every
+// db.Update), the read-write transactions are counted too, and the process can be killed at the
+// N-th transaction of the process (class "txn") -- in particular BETWEEN two transactions of one
+// store call.  Txns() reports which transactions were followed by another one inside the same
+// store call ("interior") and which ran outside any counted store call ("loose"); without the
+// hook no transaction is ever seen (TxnHook() is false) and the class "txn" is never reached.
+//
 // Registered through storage.RegisterEngine as engine "crashkv"; the store config is the badger
 // config ("path").  Every method that is not overridden is the embedded *badger.BadgerDB's, so all
 // interface assertions made by DVID (OrderedKeyValueDB, KeyValueBatcher, ...) still hold.
 package crashkv
 
 import (
+	"bytes"
 	"fmt"
 	"os"
+	"runtime"
+	"strconv"
 	"sync"
 	"time"
 
 	"github.com/blang/semver"
 
 	"github.com/janelia-flyem/dvid/dvid"
+	"github.com/janelia-flyem/dvid/dvid/verifhook"
 	"github.com/janelia-flyem/dvid/storage"
 	"github.com/janelia-flyem/dvid/storage/badger"
 )
@@ -58,7 +70,10 @@ func (Engine) NewStore(config dvid.StoreConfig) (dvid.Store, bool, error) {
 	return &Store{BadgerDB: db}, created, nil
 }
 
-func Register() { storage.RegisterEngine(Engine{}) }
+func Register() {
+	storage.RegisterEngine(Engine{})
+	verifhook.Set(txnEvent)
+}
 
 // ---- the global plan (one per process) ----
 
@@ -75,11 +90,95 @@ var (
 	metaDone  int // writes whose store call has returned
 	dataDone  int
 	trace     []string // metadata writes, in order: "P<class>[:id]" / "D<class>[:id]"
-	planClass string   // "meta" | "data" | ""
+	planClass string   // "meta" | "data" | "txn" | ""
 	planN     int
 	planMode  string
 	dying     bool
+
+	// read-write transactions of the underlying badger DB (seen only with the storage/badger hook)
+	txnBegun int
+	txnDone  int
+	interior []int                 // ordinals of transactions followed by another one in the same store call
+	loose    []int                 // ordinals of transactions outside any counted store call
+	inWrite  = map[int64]*wstate{} // goroutine -> the counted store call it is executing
 )
+
+type wstate struct {
+	txns    int // transactions this store call has completed
+	lastOrd int // ordinal of the last of them
+}
+
+func goid() int64 {
+	var buf [64]byte
+	b := buf[:runtime.Stack(buf[:], false)]
+	b = bytes.TrimPrefix(b, []byte("goroutine "))
+	if i := bytes.IndexByte(b, ' '); i > 0 {
+		n, _ := strconv.ParseInt(string(b[:i]), 10, 64)
+		return n
+	}
+	return -1
+}
+
+// txnEvent is the verifhook callback.
+func txnEvent(site string) {
+	switch site {
+	case "storage.badger.txn.begin":
+		g := goid()
+		mu.Lock()
+		if dying {
+			mu.Unlock()
+			select {}
+		}
+		txnBegun++
+		n := txnBegun
+		if ws := inWrite[g]; ws != nil && ws.txns > 0 {
+			interior = append(interior, ws.lastOrd)
+		}
+		hit := planClass == "txn" && planN == n && planMode == Before
+		mu.Unlock()
+		if hit {
+			os.Exit(ExitCode)
+		}
+	case "storage.badger.txn.done":
+		g := goid()
+		mu.Lock()
+		txnDone++
+		n := txnDone
+		if ws := inWrite[g]; ws != nil {
+			ws.txns++
+			ws.lastOrd = n
+		} else {
+			loose = append(loose, n)
+		}
+		hit := planClass == "txn" && planN == n && planMode == After
+		if os.Getenv("CRASHKV_DEBUG") != "" {
+			fmt.Fprintf(os.Stderr, "crashkv txn n=%d inwrite=%v hit=%v\n", n, inWrite[g] != nil, hit)
+		}
+		if hit {
+			dying = true
+		}
+		mu.Unlock()
+		if hit {
+			time.Sleep(GraceAfter)
+			os.Exit(ExitCode)
+		}
+	}
+}
+
+// TxnHook reports whether any transaction of the underlying DB was seen (the DVID tree has the hook).
+func TxnHook() bool {
+	mu.Lock()
+	defer mu.Unlock()
+	return txnBegun > 0
+}
+
+// Txns returns the number of completed transactions, the ordinals of those followed by another
+// transaction inside the same store call, and of those outside any counted store call.
+func Txns() (done int, inner, outside []int) {
+	mu.Lock()
+	defer mu.Unlock()
+	return txnDone, append([]int{}, interior...), append([]int{}, loose...)
+}
 
 // Plan arranges process death at the n-th (1-based) write of the class.
 func Plan(class string, n int, mode string) {
@@ -143,12 +242,15 @@ func around(class, lbl string, f func() error) error {
 		fmt.Fprintf(os.Stderr, "crashkv %s %s n=%d plan=%s:%d:%s hit=%v\n", class, lbl, n, planClass, planN, planMode, hit)
 	}
 	mode := planMode
+	g := goid()
+	inWrite[g] = &wstate{}
 	mu.Unlock()
 	if hit && mode == Before {
 		os.Exit(ExitCode)
 	}
 	err := f()
 	mu.Lock()
+	delete(inWrite, g)
 	if class == "meta" {
 		metaDone++
 	} else {
